@@ -4,6 +4,8 @@ import re
 from cv import flow, rules
 from cv.rules import events_of
 
+from props import common
+
 TITLE = "Selecting a subtree returns exactly that subtree"
 TECHNIQUE = 'static analysis: unit rule (byte length vs character index), guard analysis of the subtree filter with operand provenance, identity plumbing of the subtree parameter'
 EXPLANATION = (
@@ -153,3 +155,5 @@ def run(ck, w):
         ck.ok(o)
     else:
         ck.fail(o, nb.name, "Stitch::new does not keep its filter parameters", "subtree/exclude fields not from the parameters")
+    common.cli_option(ck, w, "C12.3e", "RestoreOptions", "only_subtree", ("param", "only_subtree"))
+    common.stitch_drops_only_filtered(ck, w, "C12.2b")
